@@ -183,6 +183,53 @@ CHECKS = {
              "MissingFairMarketValue naming symbol and date.",
         note="Two entries offering one date: either value accepted (cross-entry precedence is not specified).",
         ref="DESIGN.md §3 C19"),
+    "C15": dict(
+        technique="runtime monitor: crash/exit/file-system observation (catch_unwind at the library boundary; exit status, "
+                  "stdout, stderr and directory snapshots at the process boundary) under hostile inputs and fault sequences; "
+                  "validator verdict compared with its stated predicate",
+        text="~12k library calls per quick run on byte/token soup, mutated valid files, hostile but well-formed ledgers in a "
+             "moderate regime (any panic is a violation) and an extreme regime (magnitudes to 7.9e28/1e-28), Schwab JSON soup; "
+             "3k validator cases built as structs (negative/zero fields reachable); ~120 real cgt-tool runs over 16 fault "
+             "classes (missing/directory/non-UTF-8 input, unwritable or pre-existing --output, pre-existing default PDF path, "
+             "bad rate folder, absurd --year, /dev/full stdout): a failing run must exit non-zero without a panic, print "
+             "nothing on stdout and leave every file untouched.",
+        note="Open finding F8 (rust_decimal overflow panic in the extreme regime) is matched on regime+library+kind; any other "
+             "panic is reported. Hang detection is a wall-clock watchdog whose firing is inconclusive. MCP no-answer cases are C20's.",
+        ref="DESIGN.md §3 C15, §4 F8/F14/F18"),
+    "C16": dict(
+        technique="runtime monitor: byte comparison of outputs across 16 fresh processes per input and command; H3 hook "
+                  "recording/permuting every HashMap drain order at the library boundary; order predicates on every report",
+        text="Ledgers with 4-50 securities, many disposals per date and 3-15 tax years: library runs record the pre-sort order "
+             "of each HashMap drain (evidence: thousands of distinct orders seen per site) and are repeated under 8 seeded "
+             "permutations of every drain - report, text and JSON must be identical and canonically ordered (years ascending, "
+             "disposals by date then ticker, holdings by ticker, text-report transactions by date then ticker); report "
+             "plain/json/pdf, parse and convert schwab are run 16 times each in fresh processes and compared byte for byte.",
+        note="Only the converter's '# Converted:' timestamp is masked; PDF comparisons that straddle midnight are skipped.",
+        ref="DESIGN.md §3 C16"),
+    "C17": dict(
+        technique="runtime monitor: every figure parsed back from the plain text, the JSON report and the PDF text runs (hook "
+                  "H1) compared with the full-precision value observed at the library boundary",
+        text="Workloads built so results sit exactly on half-pence midpoints, plus zero/negative results, amounts of 1e6-1e10 "
+             "pounds, 6-9-decimal quantities and foreign-currency echoes: each monetary figure must be the computed value in "
+             "full or rounded to pence half away from zero (GBP shape with thousands separators for pence figures), quantities "
+             "exact (PDF: six decimals), dates DD/MM/YYYY, years YYYY/YY, and all three front ends must list the same years, "
+             "disposals, legs, holdings and transactions. ~370k figures per quick run.",
+        note="A figure recomputed here in exact rationals may differ by ~1e-27 from the tool's own Decimal sum; within 1e-13 of "
+             "a midpoint but not on it either neighbouring penny is accepted. MCP figures are checked by C20.",
+        ref="DESIGN.md §3 C17, §4 F9"),
+    "C20": dict(
+        technique="runtime monitor: offline checker over recorded JSON-RPC histories (exactly-once per id, liveness, exit "
+                  "status) plus reference-answer comparison (sequential shuffled session, fresh processes) and per-tool oracles",
+        text="Sessions of 5-120 requests over the five tools, list/read/ping, unknown tools and malformed arguments are sent in "
+             "single-write bursts of 1-64 that mix multi-thousand-line ledgers with trivial calls (thousands of out-of-order "
+             "completions observed per run); the history must contain exactly one response per id, no unknown ids or torn "
+             "lines, the server must stay up until EOF and exit 0; every answer must equal the answer of a sequential, "
+             "shuffled reference session and of fresh processes; calculate_report is compared with the library/CLI JSON "
+             "report, explain_matching with the full-precision report for every explained disposal, get_fx_rate with the "
+             "rate table, parse/convert outputs are re-read.",
+        note="Open findings F12 (rmcp drops unknown methods / non-object arguments and exits on a non-JSON line) and F8 (overflow "
+             "panic leaves one request unanswered) live in a labelled envelope class so the main sessions stay clean.",
+        ref="DESIGN.md §3 C20, §4 F8/F12/F13"),
 }
 
 NOT_YET = {}
